@@ -56,6 +56,10 @@ def correspond(ctx):
         for _ in range(ctx.pick(40, 1500)):
             n = rng.choice([rng.randint(2, 2100), 159, 160, 161, 319, 320, 321, 322, 640, 641, 1, 0, 3, 255, 256, 257])
             x = rng.getrandbits(n) if n else 0
+            if n and rng.random() < 0.35:       # boundary patterns: all ones, one half all ones, single bits
+                h = (n + 1) // 2
+                x = rng.choice([(1 << n) - 1, (1 << h) - 1, ((1 << (n - h)) - 1) << h, 1 << (n - 1), 1, 0,
+                                ((1 << n) - 1) ^ (1 << rng.randrange(n))])
             key = rng.choice(keys)
             rounds = rng.choice([10, 10, 10, 2, 4, 1, 3, 0])
             f2 = BitwiseFFX(rounds=rounds)
@@ -166,9 +170,27 @@ def oracle(ctx, res):
                 res.evaluations += 1
             if img != set(range(1 << n)):
                 viol("FFX is not a bijection on {0,1}^n", f"n={n}: image has {len(img)} of {1 << n} values", {"key": key.hex(), "n": n})
-    for _ in range(ctx.pick(60, 1500)):
-        n = rng.choice([rng.randint(2, 2100), 159, 160, 161, 319, 320, 321, 479, 480, 481])
+    # history independence: ONE cipher object and key, widths visited in descending and mixed order
+    shared = BitwiseFFX(); skey = rb(rng, 24)
+    order = list(range(N, 1, -1)) + [rng.randint(2, N) for _ in range(6)]
+    for n in order:
+        for x in ([0, 1, (1 << n) - 1] + [rng.getrandbits(n) for _ in range(8)]):
+            try:
+                y = shared.encrypt(skey, mkbits(x, n)); z = shared.decrypt(skey, y)
+                fresh = BitwiseFFX().encrypt(skey, mkbits(x, n))
+                if len(y) != n or (int(z), len(z)) != (x, n) or (int(y), len(y)) != (int(fresh), len(fresh)):
+                    viol("FFX result depends on earlier calls on the same object",
+                         f"after wider inputs, n={n} x={x}: got ({int(y)},{len(y)}), a fresh object gives ({int(fresh)},{len(fresh)})",
+                         {"key": skey.hex(), "n": n, "x": x, "order": order})
+            except Exception as e:
+                viol("FFX raised on a valid input", f"{type(e).__name__} n={n} x={x}", {"key": skey.hex(), "n": n, "x": x})
+            res.evaluations += 1
+    for it in range(ctx.pick(120, 1500)):
+        n = rng.choice([rng.randint(2, 2100), 97, 98, 99, 128, 159, 160, 161, 319, 320, 321, 479, 480, 481])
         x = rng.getrandbits(n); key = rb(rng, rng.choice([16, 24, 32]))
+        if it % 2 == 0:
+            h = (n + 1) // 2
+            x = rng.choice([(1 << n) - 1, (1 << h) - 1, ((1 << (n - h)) - 1) << h, 1 << (n - 1), 0])
         inp = {"key": key.hex(), "n": n, "x": x}
         try:
             y = ffx.encrypt(key, mkbits(x, n)); z = ffx.decrypt(key, y)
